@@ -8,6 +8,7 @@ package main
 import (
 	"bytes"
 	"fmt"
+	govv1 "github.com/cosmos/cosmos-sdk/x/gov/types/v1"
 	"sort"
 	"strings"
 	"time"
@@ -48,7 +49,25 @@ type groupInfo struct {
 	status    tsstypes.GroupStatus
 }
 
+// govPlan is one authority message travelling through a real x/gov proposal. It is executed by gov's end blocker in
+// the first block whose time reaches the end of the voting period - BEFORE the tss and bandtss end blockers of
+// that block, i.e. while a transition that is due in the same block is still stored.
+type govPlan struct {
+	stage     int // 1 submit tx queued, 2 submitted (votes next), 3 voted, 4 decided
+	id        uint64
+	votingEnd time.Time
+	members   []*tssworld.Member
+	threshold uint64
+	exec      time.Time
+	collided  bool
+}
+
 type mon struct {
+	gov *govPlan
+	// hand-over signings of transitions that were dropped before they were signed; such a signing may still
+	// complete later and must not count for a newer transition
+	stale  map[uint64]bool
+	hurry  bool // propose again at once (a stale hand-over signing is alive)
 	h      *tssworld.Hist
 	cur    tss.GroupID
 	tr     *trans
@@ -57,6 +76,15 @@ type mon struct {
 }
 
 func (m *mon) OnTx(h *tssworld.Hist, tx *tssworld.TxRec) {
+	if tx.Tag == "gov:submit" && m.gov != nil && m.gov.stage == 1 {
+		if tx.Res.Code != 0 {
+			h.Run.Inconclusive(fmt.Sprintf("case %d: proposal submission rejected: %s", h.Case, tx.Res.Log))
+			m.gov = nil
+		} else {
+			m.gov.stage = 2
+		}
+		return
+	}
 	if !strings.HasPrefix(tx.Tag, "req:") || tx.Res.Code != 0 {
 		return
 	}
@@ -112,6 +140,50 @@ func (m *mon) OnEndBlock(h *tssworld.Hist, b *tssworld.BlockObs) {
 			}
 		}
 		return n
+	}
+	// ---- a proposal whose voting period ended: gov's end blocker ran first in this block
+	if g := m.gov; g != nil && g.stage == 2 && g.votingEnd.IsZero() {
+		if p, err := w.GovProposal(g.id); err == nil && p.VotingEndTime != nil {
+			g.votingEnd = *p.VotingEndTime
+		} else {
+			h.Run.Inconclusive(fmt.Sprintf("case %d: submitted proposal %d not readable: %v", h.Case, g.id, err))
+			m.gov = nil
+		}
+	}
+	if g := m.gov; g != nil && g.stage == 3 && !b.Time.Before(g.votingEnd) {
+		g.stage = 4
+		p, err := w.GovProposal(g.id)
+		if err != nil {
+			h.Violate("gov-proposal-missing", err.Error())
+			return
+		}
+		busy := m.tr != nil // the transition record as gov's end blocker saw it
+		passed := p.Status == govv1.StatusPassed
+		if !passed && p.Status != govv1.StatusFailed {
+			h.Run.Inconclusive(fmt.Sprintf("case %d: proposal %d ended with status %s (votes did not carry it)", h.Case, g.id, p.Status))
+			m.gov = nil
+			return
+		}
+		h.Logf("authority: proposal %d executed by gov in block %d: passed=%v (transition in progress=%v)", g.id, b.Height, passed, busy)
+		if passed == busy {
+			h.Violate("proposal-acceptance", fmt.Sprintf("TransitionGroup through proposal %d, executed in block %d (time %s) while the stored transition was %+v: passed=%v (%s)",
+				g.id, b.Height, b.Time.Format(time.RFC3339), m.tr, passed, p.FailedReason))
+			return
+		}
+		if busy {
+			h.Run.Count("second-proposal-rejected", 1)
+			h.Run.Count("gov-routed-proposal-rejected:transition-in-progress", 1)
+			if !m.tr.exec.After(b.Time) {
+				h.Run.Count("gov-routed-proposal-rejected:transition-due-in-the-same-block", 1)
+			}
+		} else {
+			gid := tss.GroupID(tk.GetGroupCount(ctx))
+			gi := &groupInfo{members: g.members, threshold: g.threshold, policy: "complete", keys: map[*tssworld.Member]*tssworld.GroupKey{}, status: tsstypes.GROUP_STATUS_ROUND_1}
+			m.groups[gid] = gi
+			h.Thresholds[gid] = g.threshold
+			m.tr = &trans{status: stCreating, current: m.cur, incoming: gid, exec: g.exec}
+			h.Run.Count("gov-routed-proposal-accepted", 1)
+		}
 	}
 	// ---- advance the model
 	if m.tr != nil {
@@ -187,8 +259,32 @@ func (m *mon) OnEndBlock(h *tssworld.Hist, b *tssworld.BlockObs) {
 			}
 		} else {
 			h.Run.Count("dropped:exec-time-reached-in-"+m.tr.status, 1)
+			if m.tr.status == stSign {
+				if m.stale == nil {
+					m.stale = map[uint64]bool{}
+				}
+				m.stale[m.tr.signingID] = true
+				m.hurry = true
+			}
 		}
 		m.tr = nil
+	}
+	for id := range m.stale {
+		s, err := tk.GetSigning(ctx, tss.SigningID(id))
+		if err != nil || s.Status == tsstypes.SIGNING_STATUS_FALLEN {
+			delete(m.stale, id)
+			continue
+		}
+		if m.tr != nil && m.tr.status == stSign {
+			if s.Status == tsstypes.SIGNING_STATUS_SUCCESS {
+				h.Run.Count("stale-handover-signing-completed-while-the-next-transition-waits-for-its-own", 1)
+				delete(m.stale, id)
+			} else {
+				h.Run.Count("stale-handover-signing-alive-while-the-next-transition-waits-for-its-own", 1)
+			}
+		} else if s.Status == tsstypes.SIGNING_STATUS_SUCCESS {
+			delete(m.stale, id)
+		}
 	}
 	// ---- compare with the chain
 	cg := bk.GetCurrentGroup(ctx)
@@ -268,14 +364,22 @@ func (m *mon) between(h *tssworld.Hist) {
 		th := uint64(rng.Range(1, n))
 		off := time.Duration(rng.Range(2, 25)) * time.Second
 		valid := true
-		switch rng.Intn(10) {
-		case 0:
+		staleTmpl := h.Cfg.PSubmit == 12 // template "hand-over left unsigned": see main
+		if staleTmpl {
+			off = time.Duration(rng.Range(12, 18)) * time.Second
+			if tag == "after-unsigned-handover" {
+				off = 45 * time.Second
+			}
+		}
+		switch x := rng.Intn(10); {
+		case staleTmpl && x < 8:
+		case x == 0:
 			off, valid = params.MinTransitionDuration-time.Nanosecond, false
-		case 1:
+		case x == 1:
 			off, valid = params.MaxTransitionDuration+time.Nanosecond, false
-		case 2:
+		case x == 2:
 			off = params.MinTransitionDuration
-		case 3:
+		case x == 3:
 			off = params.MaxTransitionDuration
 		}
 		exec := w.Time.Add(off)
@@ -301,7 +405,11 @@ func (m *mon) between(h *tssworld.Hist) {
 			return
 		}
 		gid := tss.GroupID(before + 1)
-		gi := &groupInfo{members: ms, threshold: th, policy: sim.Pick(rng, []string{"complete", "complete", "complete", "false-complaint", "silent"}),
+		policies := []string{"complete", "complete", "complete", "false-complaint", "silent"}
+		if staleTmpl {
+			policies = []string{"complete"}
+		}
+		gi := &groupInfo{members: ms, threshold: th, policy: sim.Pick(rng, policies),
 			odd: rng.Intn(n), keys: map[*tssworld.Member]*tssworld.GroupKey{}, status: tsstypes.GROUP_STATUS_ROUND_1}
 		if n == 1 && gi.policy == "false-complaint" {
 			gi.policy = "complete"
@@ -311,6 +419,7 @@ func (m *mon) between(h *tssworld.Hist) {
 		m.tr = &trans{status: stCreating, current: m.cur, incoming: gid, exec: exec}
 		h.Run.Count("proposal-accepted:"+gi.policy, 1)
 	}
+	var forceAt time.Time
 	force := func() {
 		var cands []tss.GroupID
 		for gid, gi := range m.groups {
@@ -327,6 +436,9 @@ func (m *mon) between(h *tssworld.Hist) {
 			return
 		}
 		exec := w.Time.Add(time.Duration(rng.Range(2, 12)) * time.Second)
+		if !forceAt.IsZero() {
+			exec = forceAt
+		}
 		// members of gid may still be registered (e.g. it was the current group before): the code refuses then
 		already := false
 		for _, bm := range bk.GetMembers(w.Ctx()) {
@@ -348,6 +460,33 @@ func (m *mon) between(h *tssworld.Hist) {
 			h.Run.Count("second-proposal-rejected", 1)
 		}
 	}
+	// a transition that becomes due exactly when the pending proposal is executed
+	if g := m.gov; g != nil && g.stage >= 2 && g.stage <= 3 && !g.collided && !g.votingEnd.IsZero() && m.tr == nil &&
+		g.votingEnd.Sub(w.Time) >= params.MinTransitionDuration && g.votingEnd.Sub(w.Time) <= params.MaxTransitionDuration {
+		g.collided = true
+		forceAt = g.votingEnd
+		force()
+		forceAt = time.Time{}
+		if m.tr != nil && m.tr.exec.Equal(g.votingEnd) {
+			h.Run.Count("transition-scheduled-for-the-proposal's-execution-block", 1)
+		}
+		return
+	}
+	if m.gov == nil && h.Cfg.GovVotingPeriod > 0 && w.Height > 8 && w.Height < 70 && rng.Chance(1, 6) {
+		n := rng.Range(1, min(4, len(h.TW.Members)))
+		perm := rng.Perm(len(h.TW.Members))[:n]
+		var ms []*tssworld.Member
+		for _, p := range perm {
+			ms = append(ms, h.TW.Members[p])
+		}
+		m.gov = &govPlan{stage: 1, members: ms, threshold: uint64(rng.Range(1, n)), exec: w.Time.Add(h.Cfg.GovVotingPeriod + 25*time.Second)}
+		return
+	}
+	if m.hurry && m.tr == nil {
+		m.hurry = false
+		propose("after-unsigned-handover")
+		return
+	}
 	switch {
 	case m.tr == nil && rng.Chance(1, 4):
 		if rng.Chance(1, 4) {
@@ -368,6 +507,31 @@ func (m *mon) between(h *tssworld.Hist) {
 func (m *mon) extra(h *tssworld.Hist, ops *[]*tssworld.TxRec) {
 	w, rng := h.W, h.Rng
 	ctx := w.Ctx()
+	if g := m.gov; g != nil {
+		switch g.stage {
+		case 1:
+			var addrs []string
+			for _, mem := range g.members {
+				addrs = append(addrs, mem.Acc.Addr.String())
+			}
+			inner := bandtsstypes.NewMsgTransitionGroup(addrs, g.threshold, g.exec, sim.GovAddr().String())
+			sp, err := govv1.NewMsgSubmitProposal([]sdk.Msg{inner}, sdk.NewCoins(sdk.NewInt64Coin("uband", 1)), w.Vals[0].Addr.String(), "", "transition", "through a proposal", false)
+			id, perr := w.App.GovKeeper.ProposalID.Peek(ctx)
+			if err != nil || perr != nil {
+				m.gov = nil
+			} else {
+				g.id = id
+				h.Add(ops, "gov:submit", w.Vals[0], sp, nil)
+			}
+		case 2:
+			if !g.votingEnd.IsZero() {
+				for _, v := range w.Vals {
+					h.Add(ops, "gov:vote", v, govv1.NewMsgVote(v.Addr, g.id, govv1.OptionYes, ""), nil)
+				}
+				g.stage = 3
+			}
+		}
+	}
 	k := w.App.TSSKeeper
 	var gids []tss.GroupID
 	for gid := range m.groups {
@@ -441,17 +605,27 @@ func main() {
 		"false complaint / expire; the hand-over signing completes, retries or falls relative to a short exec window; members idle; concurrent paid " +
 		"requests. distinct = distinct per-history sequences of transition outcomes")
 	run.Assume("the model advances from tss group status, tss signing status and block time only; whether a hand-over signing could be created is observed, not predicted",
-		"authority messages are delivered through the msg service router between blocks")
+		"authority messages are delivered through the msg service router between blocks; in addition one MsgTransitionGroup per history travels through a real x/gov proposal (submit, validator votes, execution by gov's end blocker, which runs before the tss and bandtss end blockers), with a forced transition scheduled to become due in the very block that executes the proposal")
 	outcomes := map[int][]string{}
 	_ = outcomes
 	n := run.N(160, 2000)
 	tssworld.RunCases(run, "c18", n, func(r *sim.Rng, i int) tssworld.Cfg {
 		nm := r.Range(3, 6)
+		if i%4 == 1 {
+			// template "hand-over left unsigned": slow signers and long-lived signings, transitions scheduled a few blocks
+			// after key generation can finish, and a new proposal right after a transition was dropped unsigned, so that
+			// the old hand-over signing may still complete while the next transition waits for its own
+			return tssworld.Cfg{
+				NMembers: r.Range(3, 4), Threshold: 2, MaxDESize: 8, SigningPeriod: 6, MaxAttempts: 3,
+				FeePerSigner: sdk.NewCoins(sdk.NewInt64Coin("uband", 3)), Blocks: 120, PSubmit: 12, ReqPerBlockPct: 10,
+				CreationPeriod: 40, GovVotingPeriod: 0,
+			}
+		}
 		return tssworld.Cfg{
 			NMembers: nm, Threshold: uint64(r.Range(1, nm-1)), MaxDESize: 8,
 			SigningPeriod: uint64(r.Range(1, 4)), MaxAttempts: uint64(r.Range(1, 3)), FeePerSigner: sdk.NewCoins(sdk.NewInt64Coin("uband", int64(sim.Pick(r, []int{0, 3, 10})))),
 			Blocks: 120, PSubmit: sim.Pick(r, []int{30, 60, 95}), LazyMembers: sim.Pick(r, []int{0, 0, 1}),
-			ReqPerBlockPct: 40, CreationPeriod: uint64(sim.Pick(r, []int{8, 15, 40})),
+			ReqPerBlockPct: 40, CreationPeriod: uint64(sim.Pick(r, []int{8, 15, 40})), GovVotingPeriod: time.Duration(sim.Pick(r, []int{9, 14, 20})) * time.Second,
 		}
 	}, func(h *tssworld.Hist) []tssworld.Monitor {
 		m := &mon{h: h, cur: h.Group, groups: map[tss.GroupID]*groupInfo{}, dualAt: map[uint64]bool{}}
@@ -469,7 +643,9 @@ func main() {
 		run.Distinct(strings.Join(sig, "|"))
 	})
 	for _, c := range []string{"executed", "executed:forced", "handover-signed", "dropped:dkg-failed", "dropped:dkg-expired", "second-proposal-rejected",
-		"exec-time-out-of-window-rejected", "requests-while-awaiting-execution", "incoming-group-signings-created", "member-list-checked"} {
+		"exec-time-out-of-window-rejected", "requests-while-awaiting-execution", "incoming-group-signings-created", "member-list-checked",
+		"gov-routed-proposal-accepted", "gov-routed-proposal-rejected:transition-due-in-the-same-block",
+		"stale-handover-signing-completed-while-the-next-transition-waits-for-its-own"} {
 		run.Require(c, 1)
 	}
 	run.Finish()
